@@ -8,14 +8,16 @@ Tie unit "Builder": `SourceMapBuilder` (builder.rs) as translated by `tools/rs2l
 (`Generated/RsBuilder.lean`) does what the hand-written model `SmVerif/Model/Builder.lean` (`Bld`) says - the model
 the theorems of C13 (and C09 / C08 through the builder) are about.
 
-Style (uniform): a relation `BRel g b` between the generated struct and the model struct on the seven kept fields
-(`name_map`, `names`, `tokens` through `toTok`, `source_map`, `sources`, `source_contents`, `sources_mapping`); the
-model's other fields (`file`, `root`, `ignore`, `debugId` - not kept by the translator) are unconstrained and
-`BFrame b b'` says that a call leaves them alone.  `toBld g` is the related state with those fields at their `new()`
-values (`brel_toBld`, `BRel.eq_toBld`, `BRel.unique`: related states determine each other up to those fields).
-Every method theorem has the form
+Style (uniform): `toBld g` converts the generated struct to the model struct, ALL eleven fields one by one
+(`file`, `name_map`, `names`, `tokens` through `toTok`, `source_map`, `source_root`, `sources`, `source_contents`,
+`sources_mapping`, `ignore_list`, and `debug_id` through `dbgEnc`: the translator reads `DebugId` as an opaque `u64`,
+the model keeps the id's string; `dbgEnc n` = `n` times the byte `d` is a fixed injective encoding,
+`dbgEnc_injective`).  The relation `BRel g b` is `b = toBld g`; its eleven components are `BRel.file`, `BRel.nameMap`,
+… (`brel_iff`), and it is one-to-one (`BRel.eq_toBld`, `BRel.unique`).  No field is left "unconstrained" any more, so
+the former frame predicate `BFrame` (file / root / ignore / debugId untouched by a call) is gone: it follows from `BRel`
+before and after the call.  Every method theorem has the form
 
-    BRel g b → [size hypothesis] → ∃ g', gen_method g args = .ok (model result, g') ∧ BRel g' b' ∧ BFrame b b'
+    BRel g b → [size hypothesis] → ∃ g', gen_method g args = .ok (model result, g') ∧ BRel g' b'
 
 with `b'` the model's new state (so the generated method is total where the model is), and for the two methods that
 can panic a second half `model = .error e → gen = .error e`.
@@ -34,8 +36,11 @@ can panic a second half `model = .error e → gen = .error e`.
   SmallDoc hypothesis on the final state (`tie_run` from a model run, `tie_run_gen` from a generated run), or, for
   runs that panic, on the states before each call (`SmallAlong`);
 * `gen_c13_abs_add_source`, `gen_c13_abs_add_name`, `gen_c13_inv_reachable`, `gen_c13_builder_refines`,
-  `gen_c13_token_resolves` : the C13 theorems restated about the generated functions (`into_sourcemap` is not in
-  the translated unit: the finished map is the model's `intoSourcemap` of the converted final state).
+  `gen_c13_token_resolves` : the C13 theorems restated about the generated functions (the finished map is the model's
+  `intoSourcemap` of the converted final state; the generated `into_sourcemap` is tied to it in `Tie/Builder2.lean`).
+
+The ties of the other methods (`new`, `set_*`, `get_*`, `add_to_ignore_list`, `add_token`, `strip_prefixes`,
+`into_sourcemap`) are in `Tie/Builder2.lean`.
 -/
 namespace SmVerif.Tie
 open SmVerif SmVerif.Rs SmVerif.C13Spec
@@ -43,43 +48,70 @@ open SmVerif.Gen.RsBuilder (SourceMapBuilder)
 
 /-! ### conversion and relation -/
 
-/-- the generated `SourceMapBuilder` as a model builder: the kept fields one by one (tokens through `toTok`), the
-fields the translator does not keep (`file`, `source_root`, `ignore_list`, `debug_id`) at their `new()` values -/
+/-- the fixed injective encoding of the opaque debug id (`DebugId` is read as `u64` by the translator, the model keeps
+a byte string): `n` times the byte `d` -/
+def dbgEnc (n : Nat) : Bytes := List.replicate n 100
+
+theorem dbgEnc_injective (a b : Nat) (h : dbgEnc a = dbgEnc b) : a = b := by
+  have hl := congrArg List.length h
+  simp only [dbgEnc, List.length_replicate] at hl
+  exact hl
+
+theorem dbgEnc_bytes (n : Nat) : ∀ c ∈ dbgEnc n, c < 256 := by
+  intro c hc
+  have := List.eq_of_mem_replicate hc
+  omega
+
+theorem map_dbgEnc_injective : ∀ a b : Option Nat, a.map dbgEnc = b.map dbgEnc → a = b
+  | none, none, _ => rfl
+  | none, some _, h => by simp only [Option.map_none, Option.map_some, reduceCtorEq] at h
+  | some _, none, h => by simp only [Option.map_none, Option.map_some, reduceCtorEq] at h
+  | some a, some b, h => by
+    simp only [Option.map_some, Option.some.injEq] at h
+    rw [dbgEnc_injective a b h]
+
+/-- the generated `SourceMapBuilder` as a model builder: all eleven fields one by one (tokens through `toTok`, the
+debug id through `dbgEnc`) -/
 def toBld (g : SourceMapBuilder) : Bld :=
-  { nameMap := g.name_map, names := g.names, tokens := g.tokens.map toTok, sourceMap := g.source_map,
-    sources := g.sources, contents := g.source_contents, mapping := g.sources_mapping }
+  { file := g.file, nameMap := g.name_map, names := g.names, tokens := g.tokens.map toTok, sourceMap := g.source_map,
+    root := g.source_root, sources := g.sources, contents := g.source_contents, mapping := g.sources_mapping,
+    ignore := g.ignore_list, debugId := g.debug_id.map dbgEnc }
 
-/-- `g` and `b` agree on the kept fields (nothing is said of `file`, `root`, `ignore`, `debugId` of `b`) -/
-structure BRel (g : SourceMapBuilder) (b : Bld) : Prop where
-  nameMap : b.nameMap = g.name_map
-  names : b.names = g.names
-  tokens : b.tokens = g.tokens.map toTok
-  sourceMap : b.sourceMap = g.source_map
-  sources : b.sources = g.sources
-  contents : b.contents = g.source_contents
-  mapping : b.mapping = g.sources_mapping
+/-- `g` and `b` agree on all eleven fields -/
+def BRel (g : SourceMapBuilder) (b : Bld) : Prop := b = toBld g
 
-/-- the fields the generated struct does not keep are the same in `b` and `b'` -/
-structure BFrame (b b' : Bld) : Prop where
-  file : b'.file = b.file
-  root : b'.root = b.root
-  ignore : b'.ignore = b.ignore
-  debugId : b'.debugId = b.debugId
+theorem brel_toBld (g : SourceMapBuilder) : BRel g (toBld g) := rfl
 
-theorem BFrame.refl (b : Bld) : BFrame b b := ⟨rfl, rfl, rfl, rfl⟩
-theorem BFrame.trans {a b c : Bld} (h1 : BFrame a b) (h2 : BFrame b c) : BFrame a c :=
-  ⟨h2.file.trans h1.file, h2.root.trans h1.root, h2.ignore.trans h1.ignore, h2.debugId.trans h1.debugId⟩
+/-- `BRel` determines the model builder -/
+theorem BRel.eq_toBld {g : SourceMapBuilder} {b : Bld} (h : BRel g b) : b = toBld g := h
 
-theorem brel_toBld (g : SourceMapBuilder) : BRel g (toBld g) := ⟨rfl, rfl, rfl, rfl, rfl, rfl, rfl⟩
+theorem BRel.file {g b} (h : BRel g b) : b.file = g.file := by rw [h.eq_toBld]; rfl
+theorem BRel.nameMap {g b} (h : BRel g b) : b.nameMap = g.name_map := by rw [h.eq_toBld]; rfl
+theorem BRel.names {g b} (h : BRel g b) : b.names = g.names := by rw [h.eq_toBld]; rfl
+theorem BRel.tokens {g b} (h : BRel g b) : b.tokens = g.tokens.map toTok := by rw [h.eq_toBld]; rfl
+theorem BRel.sourceMap {g b} (h : BRel g b) : b.sourceMap = g.source_map := by rw [h.eq_toBld]; rfl
+theorem BRel.root {g b} (h : BRel g b) : b.root = g.source_root := by rw [h.eq_toBld]; rfl
+theorem BRel.sources {g b} (h : BRel g b) : b.sources = g.sources := by rw [h.eq_toBld]; rfl
+theorem BRel.contents {g b} (h : BRel g b) : b.contents = g.source_contents := by rw [h.eq_toBld]; rfl
+theorem BRel.mapping {g b} (h : BRel g b) : b.mapping = g.sources_mapping := by rw [h.eq_toBld]; rfl
+theorem BRel.ignore {g b} (h : BRel g b) : b.ignore = g.ignore_list := by rw [h.eq_toBld]; rfl
+theorem BRel.debugId {g b} (h : BRel g b) : b.debugId = g.debug_id.map dbgEnc := by rw [h.eq_toBld]; rfl
 
-/-- `BRel` and the four other fields determine the model builder -/
-theorem BRel.eq_toBld {g : SourceMapBuilder} {b : Bld} (h : BRel g b) :
-    b = { toBld g with file := b.file, root := b.root, ignore := b.ignore, debugId := b.debugId } := by
-  obtain ⟨h1, h2, h3, h4, h5, h6, h7⟩ := h
-  cases b
-  simp only at h1 h2 h3 h4 h5 h6 h7
-  subst h1 h2 h3 h4 h5 h6 h7
-  rfl
+/-- the relation, component by component -/
+theorem brel_iff (g : SourceMapBuilder) (b : Bld) :
+    BRel g b ↔ b.file = g.file ∧ b.nameMap = g.name_map ∧ b.names = g.names ∧ b.tokens = g.tokens.map toTok ∧
+      b.sourceMap = g.source_map ∧ b.root = g.source_root ∧ b.sources = g.sources ∧
+      b.contents = g.source_contents ∧ b.mapping = g.sources_mapping ∧ b.ignore = g.ignore_list ∧
+      b.debugId = g.debug_id.map dbgEnc := by
+  constructor
+  · intro h
+    exact ⟨h.file, h.nameMap, h.names, h.tokens, h.sourceMap, h.root, h.sources, h.contents, h.mapping, h.ignore,
+      h.debugId⟩
+  · rintro ⟨h1, h2, h3, h4, h5, h6, h7, h8, h9, h10, h11⟩
+    cases b
+    simp only at h1 h2 h3 h4 h5 h6 h7 h8 h9 h10 h11
+    subst h1 h2 h3 h4 h5 h6 h7 h8 h9 h10 h11
+    rfl
 
 theorem toTok_injective : ∀ a b : Gen.RsTypes.RawToken, toTok a = toTok b → a = b := by
   intro a b h
@@ -97,16 +129,18 @@ theorem map_toTok_injective : ∀ l l' : List Gen.RsTypes.RawToken, l.map toTok 
     simp only [List.map_cons, List.cons.injEq] at h
     rw [toTok_injective a a' h.1, map_toTok_injective l l' h.2]
 
-/-- the relation is functional from right to left as well: the model state determines the generated one -/
-theorem BRel.unique {g g' : SourceMapBuilder} {b : Bld} (h : BRel g b) (h' : BRel g' b) : g = g' := by
-  obtain ⟨h1, h2, h3, h4, h5, h6, h7⟩ := h
-  obtain ⟨k1, k2, k3, k4, k5, k6, k7⟩ := h'
+theorem toBld_injective (g g' : SourceMapBuilder) (h : toBld g = toBld g') : g = g' := by
   cases g; cases g'
-  simp only at h1 h2 h3 h4 h5 h6 h7 k1 k2 k3 k4 k5 k6 k7
-  have ht := map_toTok_injective _ _ (h3.symm.trans k3)
-  simp only [SourceMapBuilder.mk.injEq]
-  exact ⟨h1.symm.trans k1, h2.symm.trans k2, ht, h4.symm.trans k4, h5.symm.trans k5, h6.symm.trans k6,
-    h7.symm.trans k7⟩
+  simp only [toBld, Bld.mk.injEq] at h
+  obtain ⟨h1, h2, h3, h4, h5, h6, h7, h8, h9, h10, h11⟩ := h
+  have ht := map_toTok_injective _ _ h4
+  have hd := map_dbgEnc_injective _ _ h11
+  subst h1 h2 h3 ht h5 h6 h7 h8 h9 h10 hd
+  rfl
+
+/-- the relation is functional from right to left as well: the model state determines the generated one -/
+theorem BRel.unique {g g' : SourceMapBuilder} {b : Bld} (h : BRel g b) (h' : BRel g' b) : g = g' :=
+  toBld_injective g g' (h.eq_toBld.symm.trans h'.eq_toBld)
 
 /-- the SmallDoc hypothesis: fewer than `2^32` sources and names, so that `len() as u32` is `len()` -/
 def SmallG (g : SourceMapBuilder) : Prop := g.sources.length < 4294967296 ∧ g.names.length < 4294967296
@@ -143,30 +177,29 @@ state related to the model's. -/
 theorem tie_add_source_with_id (g : SourceMapBuilder) (b : Bld) (h : BRel g b)
     (hs : g.sources.length < 4294967296) (src : List Nat) (old : Nat) :
     ∃ g', g.add_source_with_id src old = .ok ((b.addSourceWithId src old).2, g') ∧
-      BRel g' (b.addSourceWithId src old).1 ∧ BFrame b (b.addSourceWithId src old).1 := by
-  obtain ⟨h1, h2, h3, h4, h5, h6, h7⟩ := h
-  cases b; cases g
-  simp only at h1 h2 h3 h4 h5 h6 h7 hs
-  subst h1 h2 h3 h4 h5 h6 h7
-  unfold SourceMapBuilder.add_source_with_id Bld.addSourceWithId
+      BRel g' (b.addSourceWithId src old).1 := by
+  obtain rfl : b = toBld g := h
+  cases g
+  simp only at hs
+  unfold SourceMapBuilder.add_source_with_id Bld.addSourceWithId toBld
   simp only [Nat.mod_eq_of_lt hs, entry_eq_lookupKey]
   cases hl : Bld.lookupKey src _ with
   | none =>
     simp only [↓reduceIte]
-    exact ⟨_, rfl, ⟨rfl, rfl, rfl, rfl, rfl, rfl, rfl⟩, ⟨rfl, rfl, rfl, rfl⟩⟩
+    exact ⟨_, rfl, rfl⟩
   | some id =>
     simp only
     split
-    · exact ⟨_, rfl, ⟨rfl, rfl, rfl, rfl, rfl, rfl, rfl⟩, ⟨rfl, rfl, rfl, rfl⟩⟩
-    · exact ⟨_, rfl, ⟨rfl, rfl, rfl, rfl, rfl, rfl, rfl⟩, ⟨rfl, rfl, rfl, rfl⟩⟩
+    · exact ⟨_, rfl, rfl⟩
+    · exact ⟨_, rfl, rfl⟩
 
 /-- **add_source.** -/
 theorem tie_add_source (g : SourceMapBuilder) (b : Bld) (h : BRel g b)
     (hs : g.sources.length < 4294967296) (src : List Nat) :
     ∃ g', g.add_source src = .ok ((b.addSource src).2, g') ∧
-      BRel g' (b.addSource src).1 ∧ BFrame b (b.addSource src).1 := by
-  obtain ⟨g', he, hr, hf⟩ := tie_add_source_with_id g b h hs src 4294967295
-  refine ⟨g', ?_, hr, hf⟩
+      BRel g' (b.addSource src).1 := by
+  obtain ⟨g', he, hr⟩ := tie_add_source_with_id g b h hs src 4294967295
+  refine ⟨g', ?_, hr⟩
   unfold SourceMapBuilder.add_source
   rw [he]
   rfl
@@ -175,22 +208,21 @@ theorem tie_add_source (g : SourceMapBuilder) (b : Bld) (h : BRel g b)
 theorem tie_add_name (g : SourceMapBuilder) (b : Bld) (h : BRel g b)
     (hn : g.names.length < 4294967296) (name : List Nat) :
     ∃ g', g.add_name name = .ok ((b.addName name).2, g') ∧
-      BRel g' (b.addName name).1 ∧ BFrame b (b.addName name).1 := by
-  obtain ⟨h1, h2, h3, h4, h5, h6, h7⟩ := h
-  cases b; cases g
-  simp only at h1 h2 h3 h4 h5 h6 h7 hn
-  subst h1 h2 h3 h4 h5 h6 h7
-  unfold SourceMapBuilder.add_name Bld.addName
+      BRel g' (b.addName name).1 := by
+  obtain rfl : b = toBld g := h
+  cases g
+  simp only at hn
+  unfold SourceMapBuilder.add_name Bld.addName toBld
   simp only [Nat.mod_eq_of_lt hn, entry_eq_lookupKey]
   cases hl : Bld.lookupKey name _ with
   | none =>
     simp only [↓reduceIte]
-    exact ⟨_, rfl, ⟨rfl, rfl, rfl, rfl, rfl, rfl, rfl⟩, ⟨rfl, rfl, rfl, rfl⟩⟩
+    exact ⟨_, rfl, rfl⟩
   | some id =>
     simp only
     split
-    · exact ⟨_, rfl, ⟨rfl, rfl, rfl, rfl, rfl, rfl, rfl⟩, ⟨rfl, rfl, rfl, rfl⟩⟩
-    · exact ⟨_, rfl, ⟨rfl, rfl, rfl, rfl, rfl, rfl, rfl⟩, ⟨rfl, rfl, rfl, rfl⟩⟩
+    · exact ⟨_, rfl, rfl⟩
+    · exact ⟨_, rfl, rfl⟩
 
 /-- **the size hypothesis is needed** (and is the only one): with exactly `2^32` sources, `count = len() as u32`
 is `0` in the Rust code, so a string that is not in the table gets the id `0` from the generated function (and the
@@ -250,12 +282,9 @@ theorem addWithId_eq (b : Bld) (dl dc sl sc : Nat) (src : Option Bytes) (sid : N
   cases src <;> cases name <;> rfl
 
 theorem brel_push {g : SourceMapBuilder} {b : Bld} (h : BRel g b) (raw : Gen.RsTypes.RawToken) :
-    BRel { g with tokens := g.tokens ++ [raw] } { b with tokens := b.tokens ++ [toTok raw] } :=
-  ⟨h.nameMap, h.names, by simp only [h.tokens, List.map_append, List.map_cons, List.map_nil], h.sourceMap, h.sources,
-    h.contents, h.mapping⟩
-
-theorem bframe_push {b b' : Bld} (h : BFrame b b') (t : Tok) : BFrame b { b' with tokens := b'.tokens ++ [t] } :=
-  ⟨h.file, h.root, h.ignore, h.debugId⟩
+    BRel { g with tokens := g.tokens ++ [raw] } { b with tokens := b.tokens ++ [toTok raw] } := by
+  obtain rfl : b = toBld g := h
+  simp only [BRel, toBld, List.map_append, List.map_cons, List.map_nil]
 
 /-! ### `add_with_id`, `add`, `add_raw` -/
 
@@ -266,40 +295,39 @@ theorem tie_add_with_id (g : SourceMapBuilder) (b : Bld) (h : BRel g b) (dl dc s
     (hs : source ≠ none → g.sources.length < 4294967296) (hn : name ≠ none → g.names.length < 4294967296) :
     ∃ raw g', g.add_with_id dl dc sl sc source sid name rng = .ok (raw, g') ∧
       toTok raw = (b.addWithId dl dc sl sc source sid name rng).2 ∧
-      BRel g' (b.addWithId dl dc sl sc source sid name rng).1 ∧
-      BFrame b (b.addWithId dl dc sl sc source sid name rng).1 := by
+      BRel g' (b.addWithId dl dc sl sc source sid name rng).1 := by
   rw [addWithId_eq]
   cases source with
   | none =>
     cases name with
     | none =>
-      exact ⟨⟨dl, dc, sl, sc, 4294967295, 4294967295, rng⟩, _, rfl, rfl, brel_push h _, bframe_push (BFrame.refl b) _⟩
+      exact ⟨⟨dl, dc, sl, sc, 4294967295, 4294967295, rng⟩, _, rfl, rfl, brel_push h _⟩
     | some n =>
-      obtain ⟨g2, e2, r2, f2⟩ := tie_add_name g b h (hn (by simp only [ne_eq, reduceCtorEq, not_false_eq_true])) n
+      obtain ⟨g2, e2, r2⟩ := tie_add_name g b h (hn (by simp only [ne_eq, reduceCtorEq, not_false_eq_true])) n
       refine ⟨⟨dl, dc, sl, sc, 4294967295, (b.addName n).2, rng⟩,
         { g2 with tokens := g2.tokens ++ [⟨dl, dc, sl, sc, 4294967295, (b.addName n).2, rng⟩] }, ?_, rfl,
-        brel_push r2 _, bframe_push f2 _⟩
+        brel_push r2 _⟩
       unfold SourceMapBuilder.add_with_id
       simp only [e2]
   | some s =>
-    obtain ⟨g1, e1, r1, f1⟩ :=
+    obtain ⟨g1, e1, r1⟩ :=
       tie_add_source_with_id g b h (hs (by simp only [ne_eq, reduceCtorEq, not_false_eq_true])) s sid
     cases name with
     | none =>
       refine ⟨⟨dl, dc, sl, sc, (b.addSourceWithId s sid).2, 4294967295, rng⟩,
         { g1 with tokens := g1.tokens ++ [⟨dl, dc, sl, sc, (b.addSourceWithId s sid).2, 4294967295, rng⟩] }, ?_, rfl,
-        brel_push r1 _, bframe_push f1 _⟩
+        brel_push r1 _⟩
       unfold SourceMapBuilder.add_with_id
       simp only [e1]
     | some n =>
       have hn1 : g1.names.length < 4294967296 := by
         rw [← r1.names, (addSourceWithId_frame b s sid).1, h.names]
         exact hn (by simp only [ne_eq, reduceCtorEq, not_false_eq_true])
-      obtain ⟨g2, e2, r2, f2⟩ := tie_add_name g1 _ r1 hn1 n
+      obtain ⟨g2, e2, r2⟩ := tie_add_name g1 _ r1 hn1 n
       refine ⟨⟨dl, dc, sl, sc, (b.addSourceWithId s sid).2, ((b.addSourceWithId s sid).1.addName n).2, rng⟩,
         { g2 with tokens := g2.tokens ++
             [⟨dl, dc, sl, sc, (b.addSourceWithId s sid).2, ((b.addSourceWithId s sid).1.addName n).2, rng⟩] },
-        ?_, rfl, brel_push r2 _, bframe_push (f1.trans f2) _⟩
+        ?_, rfl, brel_push r2 _⟩
       unfold SourceMapBuilder.add_with_id
       simp only [e1, e2]
 
@@ -309,9 +337,9 @@ theorem tie_add (g : SourceMapBuilder) (b : Bld) (h : BRel g b) (dl dc sl sc : N
     (hs : source ≠ none → g.sources.length < 4294967296) (hn : name ≠ none → g.names.length < 4294967296) :
     ∃ raw g', g.add dl dc sl sc source name rng = .ok (raw, g') ∧
       toTok raw = (b.add dl dc sl sc source name rng).2 ∧
-      BRel g' (b.add dl dc sl sc source name rng).1 ∧ BFrame b (b.add dl dc sl sc source name rng).1 := by
-  obtain ⟨raw, g', he, ht, hr, hf⟩ := tie_add_with_id g b h dl dc sl sc source 4294967295 name rng hs hn
-  refine ⟨raw, g', ?_, ht, hr, hf⟩
+      BRel g' (b.add dl dc sl sc source name rng).1 := by
+  obtain ⟨raw, g', he, ht, hr⟩ := tie_add_with_id g b h dl dc sl sc source 4294967295 name rng hs hn
+  refine ⟨raw, g', ?_, ht, hr⟩
   unfold SourceMapBuilder.add
   rw [he]
 
@@ -320,8 +348,8 @@ theorem tie_add_raw (g : SourceMapBuilder) (b : Bld) (h : BRel g b) (dl dc sl sc
     (source name : Option Nat) (rng : Bool) :
     ∃ raw g', g.add_raw dl dc sl sc source name rng = .ok (raw, g') ∧
       toTok raw = (b.addRaw dl dc sl sc source name rng).2 ∧
-      BRel g' (b.addRaw dl dc sl sc source name rng).1 ∧ BFrame b (b.addRaw dl dc sl sc source name rng).1 :=
-  ⟨_, _, rfl, rfl, brel_push h _, bframe_push (BFrame.refl b) _⟩
+      BRel g' (b.addRaw dl dc sl sc source name rng).1 :=
+  ⟨_, _, rfl, rfl, brel_push h _⟩
 
 /-! ### `set_source`, `set_source_contents` (with their panics), getters, `take_mapping` -/
 
@@ -329,7 +357,7 @@ theorem tie_add_raw (g : SourceMapBuilder) (b : Bld) (h : BRel g b) (dl dc sl sc
 the model panics (`src_id = !0`: the `assert!`; `src_id ≥ sources.len()`: the index) so does the generated
 code.  No hypothesis. -/
 theorem tie_set_source (g : SourceMapBuilder) (b : Bld) (h : BRel g b) (i : Nat) (v : List Nat) :
-    (∀ b', b.setSource i v = .ok b' → ∃ g', g.set_source i v = .ok g' ∧ BRel g' b' ∧ BFrame b b') ∧
+    (∀ b', b.setSource i v = .ok b' → ∃ g', g.set_source i v = .ok g' ∧ BRel g' b') ∧
     (∀ e, b.setSource i v = .error e → g.set_source i v = .error e) := by
   have hN : SmVerif.NONE = 4294967295 := rfl
   have hl : b.sources.length = g.sources.length := by rw [h.sources]
@@ -347,8 +375,8 @@ theorem tie_set_source (g : SourceMapBuilder) (b : Bld) (h : BRel g b) (i : Nat)
       refine ⟨fun b' hb' => ?_, fun e he => by simp only [reduceCtorEq] at he⟩
       simp only [Except.ok.injEq] at hb'
       subst hb'
-      exact ⟨_, rfl, ⟨h.nameMap, h.names, h.tokens, h.sourceMap, by simp only [h.sources], h.contents, h.mapping⟩,
-        ⟨rfl, rfl, rfl, rfl⟩⟩
+      obtain rfl : b = toBld g := h
+      exact ⟨_, rfl, rfl⟩
     · have h3 : (i = 4294967295 ∨ i ≥ g.sources.length) := by omega
       have h4 : ¬ ¬ (i ≠ 4294967295) := by omega
       simp only [h3, h4, h2, ↓reduceIte]
@@ -361,7 +389,7 @@ theorem resizeOpt_eq_rsResize (l : List (Option Bytes)) (n : Nat) : SMap.resizeO
 No hypothesis. -/
 theorem tie_set_source_contents (g : SourceMapBuilder) (b : Bld) (h : BRel g b) (i : Nat) (v : Option (List Nat)) :
     (∀ b', b.setSourceContents i v = .ok b' →
-      ∃ g', g.set_source_contents i v = .ok g' ∧ BRel g' b' ∧ BFrame b b') ∧
+      ∃ g', g.set_source_contents i v = .ok g' ∧ BRel g' b') ∧
     (∀ e, b.setSourceContents i v = .error e → g.set_source_contents i v = .error e) := by
   have hN : SmVerif.NONE = 4294967295 := rfl
   have hl : b.sources.length = g.sources.length := by rw [h.sources]
@@ -382,7 +410,8 @@ theorem tie_set_source_contents (g : SourceMapBuilder) (b : Bld) (h : BRel g b) 
         refine ⟨fun b' hb' => ?_, fun e he => by simp only [reduceCtorEq] at he⟩
         simp only [Except.ok.injEq] at hb'
         subst hb'
-        exact ⟨_, rfl, ⟨h.nameMap, h.names, h.tokens, h.sourceMap, h.sources, rfl, h.mapping⟩, ⟨rfl, rfl, rfl, rfl⟩⟩
+        obtain rfl : b = toBld g := h
+        exact ⟨_, rfl, rfl⟩
       · have h5 : i ≥ (rsResize g.source_contents g.sources.length none).length := by omega
         simp only [h3, h5, ↓reduceIte]
         exact ⟨fun b' hb' => by simp only [reduceCtorEq] at hb', fun e he => by cases he; rfl⟩
@@ -393,7 +422,8 @@ theorem tie_set_source_contents (g : SourceMapBuilder) (b : Bld) (h : BRel g b) 
         refine ⟨fun b' hb' => ?_, fun e he => by simp only [reduceCtorEq] at he⟩
         simp only [Except.ok.injEq] at hb'
         subst hb'
-        exact ⟨_, rfl, ⟨h.nameMap, h.names, h.tokens, h.sourceMap, h.sources, rfl, h.mapping⟩, ⟨rfl, rfl, rfl, rfl⟩⟩
+        obtain rfl : b = toBld g := h
+        exact ⟨_, rfl, rfl⟩
       · have h5 : i ≥ g.source_contents.length := by omega
         simp only [h3, h5, ↓reduceIte]
         exact ⟨fun b' hb' => by simp only [reduceCtorEq] at hb', fun e he => by cases he; rfl⟩
@@ -423,21 +453,68 @@ theorem tie_has_source_contents (g : SourceMapBuilder) (b : Bld) (h : BRel g b) 
 /-- **take_mapping** (`mem::take(&mut self.sources_mapping)`; the model reads the field `mapping` where the Rust
 code calls it, in `rewrite_with_mapping`): returns the model's `mapping` and leaves it empty. -/
 theorem tie_take_mapping (g : SourceMapBuilder) (b : Bld) (h : BRel g b) :
-    ∃ g', g.take_mapping = .ok (b.mapping, g') ∧ BRel g' { b with mapping := [] } ∧
-      BFrame b { b with mapping := [] } := by
-  unfold SourceMapBuilder.take_mapping
-  rw [h.mapping]
-  exact ⟨_, rfl, ⟨h.nameMap, h.names, h.tokens, h.sourceMap, h.sources, h.contents, rfl⟩, ⟨rfl, rfl, rfl, rfl⟩⟩
+    ∃ g', g.take_mapping = .ok (b.mapping, g') ∧ BRel g' { b with mapping := [] } := by
+  obtain rfl : b = toBld g := h
+  exact ⟨_, rfl, rfl⟩
+
+/-! ### `new`, the accessors of `file`, `source_root`, `debug_id`, and `add_to_ignore_list` -/
+
+/-- `BTreeSet::insert` of the prelude is the model's `insertSorted` - on every list, sorted or not, with or without
+duplicates (both are the same recursion) -/
+theorem rsSetInsert_eq_insertSorted (x : Nat) : ∀ l : List Nat, rsSetInsert l x = SMap.insertSorted x l
+  | [] => rfl
+  | y :: ys => by simp only [rsSetInsert, SMap.insertSorted, rsSetInsert_eq_insertSorted x ys]
+
+/-- **new.** -/
+theorem tie_new (file : Option (List Nat)) : ∃ g, SourceMapBuilder.new file = .ok g ∧ BRel g (Bld.new file) :=
+  ⟨_, rfl, rfl⟩
+
+/-- **set_debug_id** (the opaque id through `dbgEnc`). -/
+theorem tie_set_debug_id (g : SourceMapBuilder) (b : Bld) (h : BRel g b) (d : Option Nat) :
+    ∃ g', g.set_debug_id d = .ok g' ∧ BRel g' (b.setDebugId (d.map dbgEnc)) := by
+  obtain rfl : b = toBld g := h
+  exact ⟨_, rfl, rfl⟩
+
+/-- **set_file.** -/
+theorem tie_set_file (g : SourceMapBuilder) (b : Bld) (h : BRel g b) (f : Option (List Nat)) :
+    ∃ g', g.set_file f = .ok g' ∧ BRel g' (b.setFile f) := by
+  obtain rfl : b = toBld g := h
+  exact ⟨_, rfl, rfl⟩
+
+/-- **get_file** (the model reads the field). -/
+theorem tie_get_file (g : SourceMapBuilder) (b : Bld) (h : BRel g b) : g.get_file = .ok b.file := by
+  rw [h.file]; rfl
+
+/-- **set_source_root.** -/
+theorem tie_set_source_root (g : SourceMapBuilder) (b : Bld) (h : BRel g b) (r : Option (List Nat)) :
+    ∃ g', g.set_source_root r = .ok g' ∧ BRel g' (b.setSourceRoot r) := by
+  obtain rfl : b = toBld g := h
+  exact ⟨_, rfl, rfl⟩
+
+/-- **get_source_root** (the model reads the field). -/
+theorem tie_get_source_root (g : SourceMapBuilder) (b : Bld) (h : BRel g b) : g.get_source_root = .ok b.root := by
+  rw [h.root]; rfl
+
+/-- **add_to_ignore_list.**  No hypothesis: the two inserts agree on every list. -/
+theorem tie_add_to_ignore_list (g : SourceMapBuilder) (b : Bld) (h : BRel g b) (i : Nat) :
+    ∃ g', g.add_to_ignore_list i = .ok g' ∧ BRel g' (b.addToIgnoreList i) := by
+  obtain rfl : b = toBld g := h
+  refine ⟨_, rfl, ?_⟩
+  simp only [BRel, toBld, Bld.addToIgnoreList, rsSetInsert_eq_insertSorted]
 
 /-! ### sequences of calls -/
 
-/-- the builder calls whose Rust functions are translated (a subset of the model's `BOp`) -/
+/-- the builder calls (all of the model's `BOp`; `setDebugId` takes the translator's opaque id) -/
 inductive BldOp where
   | addSource (s : List Nat)
   | addName (s : List Nat)
   | add (dl dc sl sc : Nat) (src name : Option (List Nat)) (rng : Bool)
   | addRaw (dl dc sl sc : Nat) (src name : Option Nat) (rng : Bool)
   | setSourceContents (i : Nat) (v : Option (List Nat))
+  | addToIgnoreList (i : Nat)
+  | setSourceRoot (r : Option (List Nat))
+  | setFile (f : Option (List Nat))
+  | setDebugId (d : Option Nat)
   | getSource (i : Nat)
   deriving Repr, DecidableEq
 
@@ -448,6 +525,10 @@ def BldOp.toBOp : BldOp → BOp
   | .add dl dc sl sc src name rng => .add dl dc sl sc src name rng
   | .addRaw dl dc sl sc src name rng => .addRaw dl dc sl sc src name rng
   | .setSourceContents i v => .setSourceContents i v
+  | .addToIgnoreList i => .addToIgnoreList i
+  | .setSourceRoot r => .setSourceRoot r
+  | .setFile f => .setFile f
+  | .setDebugId d => .setDebugId (d.map dbgEnc)
   | .getSource i => .getSource i
 
 /-- one call on the generated builder, with the observation `Bld.step` records -/
@@ -472,6 +553,22 @@ def stepG (g : SourceMapBuilder) : BldOp → Res (SourceMapBuilder × BOut)
     match g.set_source_contents i v with
     | .ok g' => .ok (g', .unit)
     | .error e => .error e
+  | .addToIgnoreList i =>
+    match g.add_to_ignore_list i with
+    | .ok g' => .ok (g', .unit)
+    | .error e => .error e
+  | .setSourceRoot r =>
+    match g.set_source_root r with
+    | .ok g' => .ok (g', .unit)
+    | .error e => .error e
+  | .setFile f =>
+    match g.set_file f with
+    | .ok g' => .ok (g', .unit)
+    | .error e => .error e
+  | .setDebugId d =>
+    match g.set_debug_id d with
+    | .ok g' => .ok (g', .unit)
+    | .error e => .error e
   | .getSource i =>
     match g.get_source i with
     | .ok r => .ok (g, .str r)
@@ -488,19 +585,21 @@ def runG (g : SourceMapBuilder) : List BldOp → Res (SourceMapBuilder × List B
       | .error e => .error e
       | .ok (g'', os) => .ok (g'', o :: os)
 
-/-- `SourceMapBuilder::new` on the kept fields -/
+/-- `SourceMapBuilder::new(None)` -/
 def emptyG : SourceMapBuilder :=
-  { name_map := [], names := [], tokens := [], source_map := [], sources := [], source_contents := [],
-    sources_mapping := [] }
+  { file := none, name_map := [], names := [], tokens := [], source_map := [], source_root := none, sources := [],
+    source_contents := [], sources_mapping := [], ignore_list := [], debug_id := none }
 
+/-- `emptyG` is what the generated `SourceMapBuilder::new(None)` returns -/
+theorem new_none_eq_emptyG : SourceMapBuilder.new none = .ok emptyG := rfl
 theorem toBld_emptyG : toBld emptyG = Bld.new none := rfl
-theorem brel_emptyG (file : Option Bytes) : BRel emptyG (Bld.new file) := ⟨rfl, rfl, rfl, rfl, rfl, rfl, rfl⟩
+theorem brel_emptyG : BRel emptyG (Bld.new none) := rfl
 
 /-- **one call.**  From related states, with fewer than `2^32` sources and names *before* the call, the generated
 call and the model call have the same outcome: both succeed with the same observation and related states, or both
 fail with the same error (the panic of `set_source_contents`). -/
 theorem tie_step (g : SourceMapBuilder) (b : Bld) (h : BRel g b) (hs : SmallB b) (op : BldOp) :
-    (∀ b' o, b.step op.toBOp = .ok (b', o) → ∃ g', stepG g op = .ok (g', o) ∧ BRel g' b' ∧ BFrame b b') ∧
+    (∀ b' o, b.step op.toBOp = .ok (b', o) → ∃ g', stepG g op = .ok (g', o) ∧ BRel g' b') ∧
     (∀ e, b.step op.toBOp = .error e → stepG g op = .error e) := by
   have hg := (h.small).2 hs
   cases op with
@@ -508,45 +607,69 @@ theorem tie_step (g : SourceMapBuilder) (b : Bld) (h : BRel g b) (hs : SmallB b)
     refine ⟨fun b' o hb' => ?_, fun e he => by simp only [BldOp.toBOp, Bld.step, reduceCtorEq] at he⟩
     simp only [BldOp.toBOp, Bld.step, Except.ok.injEq, Prod.mk.injEq] at hb'
     obtain ⟨rfl, rfl⟩ := hb'
-    obtain ⟨g', e, r, f⟩ := tie_add_source g b h hg.1 s
-    exact ⟨g', by simp only [stepG, e], r, f⟩
+    obtain ⟨g', e, r⟩ := tie_add_source g b h hg.1 s
+    exact ⟨g', by simp only [stepG, e], r⟩
   | addName s =>
     refine ⟨fun b' o hb' => ?_, fun e he => by simp only [BldOp.toBOp, Bld.step, reduceCtorEq] at he⟩
     simp only [BldOp.toBOp, Bld.step, Except.ok.injEq, Prod.mk.injEq] at hb'
     obtain ⟨rfl, rfl⟩ := hb'
-    obtain ⟨g', e, r, f⟩ := tie_add_name g b h hg.2 s
-    exact ⟨g', by simp only [stepG, e], r, f⟩
+    obtain ⟨g', e, r⟩ := tie_add_name g b h hg.2 s
+    exact ⟨g', by simp only [stepG, e], r⟩
   | add dl dc sl sc src name rng =>
     refine ⟨fun b' o hb' => ?_, fun e he => by simp only [BldOp.toBOp, Bld.step, reduceCtorEq] at he⟩
     simp only [BldOp.toBOp, Bld.step, Except.ok.injEq, Prod.mk.injEq] at hb'
     obtain ⟨rfl, rfl⟩ := hb'
-    obtain ⟨raw, g', e, ht, r, f⟩ := tie_add g b h dl dc sl sc src name rng (fun _ => hg.1) (fun _ => hg.2)
-    refine ⟨g', ?_, r, f⟩
+    obtain ⟨raw, g', e, ht, r⟩ := tie_add g b h dl dc sl sc src name rng (fun _ => hg.1) (fun _ => hg.2)
+    refine ⟨g', ?_, r⟩
     simp only [stepG, e, ← ht, toTok]
   | addRaw dl dc sl sc src name rng =>
     refine ⟨fun b' o hb' => ?_, fun e he => by simp only [BldOp.toBOp, Bld.step, reduceCtorEq] at he⟩
     simp only [BldOp.toBOp, Bld.step, Except.ok.injEq, Prod.mk.injEq] at hb'
     obtain ⟨rfl, rfl⟩ := hb'
-    obtain ⟨raw, g', e, ht, r, f⟩ := tie_add_raw g b h dl dc sl sc src name rng
-    refine ⟨g', ?_, r, f⟩
+    obtain ⟨raw, g', e, ht, r⟩ := tie_add_raw g b h dl dc sl sc src name rng
+    refine ⟨g', ?_, r⟩
     simp only [stepG, e, ← ht, toTok]
   | setSourceContents i v =>
     obtain ⟨hok, herr⟩ := tie_set_source_contents g b h i v
     simp only [BldOp.toBOp, Bld.step, stepG]
     cases hm : b.setSourceContents i v with
     | ok b1 =>
-      obtain ⟨g', e, r, f⟩ := hok b1 hm
+      obtain ⟨g', e, r⟩ := hok b1 hm
       simp only [e, Except.ok.injEq, Prod.mk.injEq, reduceCtorEq, false_implies, implies_true, and_true]
       rintro b' o ⟨rfl, rfl⟩
-      exact ⟨g', ⟨rfl, rfl⟩, r, f⟩
+      exact ⟨g', ⟨rfl, rfl⟩, r⟩
     | error e0 =>
       simp only [herr e0 hm, reduceCtorEq, false_implies, implies_true, true_and]
       intro e he; cases he; rfl
+  | addToIgnoreList i =>
+    refine ⟨fun b' o hb' => ?_, fun e he => by simp only [BldOp.toBOp, Bld.step, reduceCtorEq] at he⟩
+    simp only [BldOp.toBOp, Bld.step, Except.ok.injEq, Prod.mk.injEq] at hb'
+    obtain ⟨rfl, rfl⟩ := hb'
+    obtain ⟨g', e, r⟩ := tie_add_to_ignore_list g b h i
+    exact ⟨g', by simp only [stepG, e], r⟩
+  | setSourceRoot v =>
+    refine ⟨fun b' o hb' => ?_, fun e he => by simp only [BldOp.toBOp, Bld.step, reduceCtorEq] at he⟩
+    simp only [BldOp.toBOp, Bld.step, Except.ok.injEq, Prod.mk.injEq] at hb'
+    obtain ⟨rfl, rfl⟩ := hb'
+    obtain ⟨g', e, r⟩ := tie_set_source_root g b h v
+    exact ⟨g', by simp only [stepG, e], r⟩
+  | setFile v =>
+    refine ⟨fun b' o hb' => ?_, fun e he => by simp only [BldOp.toBOp, Bld.step, reduceCtorEq] at he⟩
+    simp only [BldOp.toBOp, Bld.step, Except.ok.injEq, Prod.mk.injEq] at hb'
+    obtain ⟨rfl, rfl⟩ := hb'
+    obtain ⟨g', e, r⟩ := tie_set_file g b h v
+    exact ⟨g', by simp only [stepG, e], r⟩
+  | setDebugId v =>
+    refine ⟨fun b' o hb' => ?_, fun e he => by simp only [BldOp.toBOp, Bld.step, reduceCtorEq] at he⟩
+    simp only [BldOp.toBOp, Bld.step, Except.ok.injEq, Prod.mk.injEq] at hb'
+    obtain ⟨rfl, rfl⟩ := hb'
+    obtain ⟨g', e, r⟩ := tie_set_debug_id g b h v
+    exact ⟨g', by simp only [stepG, e], r⟩
   | getSource i =>
     refine ⟨fun b' o hb' => ?_, fun e he => by simp only [BldOp.toBOp, Bld.step, reduceCtorEq] at he⟩
     simp only [BldOp.toBOp, Bld.step, Except.ok.injEq, Prod.mk.injEq] at hb'
     obtain ⟨rfl, rfl⟩ := hb'
-    exact ⟨g, by simp only [stepG, tie_get_source g b h i], h, BFrame.refl b⟩
+    exact ⟨g, by simp only [stepG, tie_get_source g b h i], h⟩
 
 /-! #### the tables only grow -/
 
@@ -613,7 +736,7 @@ theorem step_mono (b : Bld) (op : BldOp) (b' : Bld) (o : BOut) (h : b.step op.to
       obtain ⟨rfl, _⟩ := h
       obtain ⟨k1, k2⟩ := setSourceContents_frame b b1 i v hm
       exact ⟨by rw [k1]; exact Nat.le_refl _, by rw [k2]; exact Nat.le_refl _⟩
-  | getSource i =>
+  | addToIgnoreList _ | setSourceRoot _ | setFile _ | setDebugId _ | getSource _ =>
     simp only [BldOp.toBOp, Bld.step, Except.ok.injEq, Prod.mk.injEq] at h
     obtain ⟨rfl, _⟩ := h
     exact ⟨Nat.le_refl _, Nat.le_refl _⟩
@@ -689,22 +812,22 @@ the same observations and related final states, or both stop with the same error
 theorem tie_run_along : ∀ (ops : List BldOp) (g : SourceMapBuilder) (b : Bld), BRel g b →
     SmallAlong b (ops.map BldOp.toBOp) →
     (∀ b' outs, b.run (ops.map BldOp.toBOp) = .ok (b', outs) →
-      ∃ g', runG g ops = .ok (g', outs) ∧ BRel g' b' ∧ BFrame b b') ∧
+      ∃ g', runG g ops = .ok (g', outs) ∧ BRel g' b') ∧
     (∀ e, b.run (ops.map BldOp.toBOp) = .error e → runG g ops = .error e)
   | [], g, b, h, _ => by
     refine ⟨fun b' outs hb' => ?_, fun e he => by simp only [List.map_nil, Bld.run, reduceCtorEq] at he⟩
     simp only [List.map_nil, Bld.run, Except.ok.injEq, Prod.mk.injEq] at hb'
     obtain ⟨rfl, rfl⟩ := hb'
-    exact ⟨g, rfl, h, BFrame.refl b⟩
+    exact ⟨g, rfl, h⟩
   | op :: ops, g, b, h, hsm => by
     obtain ⟨hsb, hnext⟩ := hsm
     obtain ⟨sok, serr⟩ := tie_step g b h hsb op
     constructor
     · intro b' outs hb'
       obtain ⟨b1, o, os, h1, h2, h3⟩ := run_cons_ok hb'
-      obtain ⟨g1, e1, r1, f1⟩ := sok b1 o h1
-      obtain ⟨g', e2, r2, f2⟩ := (tie_run_along ops g1 b1 r1 (hnext b1 o h1)).1 b' os h2
-      exact ⟨g', by simp only [runG, e1, e2, h3], r2, f1.trans f2⟩
+      obtain ⟨g1, e1, r1⟩ := sok b1 o h1
+      obtain ⟨g', e2, r2⟩ := (tie_run_along ops g1 b1 r1 (hnext b1 o h1)).1 b' os h2
+      exact ⟨g', by simp only [runG, e1, e2, h3], r2⟩
     · intro e he
       simp only [List.map_cons, Bld.run] at he
       cases hs : b.step op.toBOp with
@@ -715,7 +838,7 @@ theorem tie_run_along : ∀ (ops : List BldOp) (g : SourceMapBuilder) (b : Bld),
       | ok r =>
         obtain ⟨b1, o⟩ := r
         simp only [hs] at he
-        obtain ⟨g1, e1, r1, f1⟩ := sok b1 o hs
+        obtain ⟨g1, e1, r1⟩ := sok b1 o hs
         cases hr : b1.run (ops.map BldOp.toBOp) with
         | ok r2 => simp only [hr, reduceCtorEq] at he
         | error e0 =>
@@ -729,7 +852,7 @@ sources and names, the generated builder completes it with the same observations
 related. -/
 theorem tie_run (ops : List BldOp) (g : SourceMapBuilder) (b : Bld) (h : BRel g b) (b' : Bld) (outs : List BOut)
     (hr : b.run (ops.map BldOp.toBOp) = .ok (b', outs)) (hs : SmallB b') :
-    ∃ g', runG g ops = .ok (g', outs) ∧ BRel g' b' ∧ BFrame b b' :=
+    ∃ g', runG g ops = .ok (g', outs) ∧ BRel g' b' :=
   (tie_run_along ops g b h (smallAlong_of_final ops b b' outs hr hs)).1 b' outs hr
 
 /-- the panic case of a sequence: the SmallDoc hypothesis is about the states before the failing call -/
@@ -828,8 +951,10 @@ theorem stepG_mono (g : SourceMapBuilder) (op : BldOp) (g' : SourceMapBuilder) (
       obtain ⟨rfl, _⟩ := h
       obtain ⟨k1, k2⟩ := gen_set_source_contents_frame g g1 i v hm
       exact ⟨by rw [k1]; exact Nat.le_refl _, by rw [k2]; exact Nat.le_refl _⟩
-  | getSource i =>
-    simp only [stepG, SourceMapBuilder.get_source, Except.ok.injEq, Prod.mk.injEq] at h
+  | addToIgnoreList _ | setSourceRoot _ | setFile _ | setDebugId _ | getSource _ =>
+    simp only [stepG, SourceMapBuilder.get_source, SourceMapBuilder.add_to_ignore_list,
+      SourceMapBuilder.set_source_root, SourceMapBuilder.set_file, SourceMapBuilder.set_debug_id, Except.ok.injEq,
+      Prod.mk.injEq] at h
     obtain ⟨rfl, _⟩ := h
     exact ⟨Nat.le_refl _, Nat.le_refl _⟩
 
@@ -850,11 +975,11 @@ final state has fewer than `2^32` sources and names, the model completes it with
 final states are related. -/
 theorem tie_run_gen : ∀ (ops : List BldOp) (g : SourceMapBuilder) (b : Bld), BRel g b →
     ∀ (g' : SourceMapBuilder) (outs : List BOut), runG g ops = .ok (g', outs) → SmallG g' →
-    ∃ b', b.run (ops.map BldOp.toBOp) = .ok (b', outs) ∧ BRel g' b' ∧ BFrame b b'
+    ∃ b', b.run (ops.map BldOp.toBOp) = .ok (b', outs) ∧ BRel g' b'
   | [], g, b, h, g', outs, hr, _ => by
     simp only [runG, Except.ok.injEq, Prod.mk.injEq] at hr
     obtain ⟨rfl, rfl⟩ := hr
-    exact ⟨b, rfl, h, BFrame.refl b⟩
+    exact ⟨b, rfl, h⟩
   | op :: ops, g, b, h, g', outs, hr, hs => by
     obtain ⟨g1, o, os, h1, h2, h3⟩ := runG_cons_ok hr
     obtain ⟨m1, m2⟩ := stepG_mono g op g1 o h1
@@ -867,22 +992,14 @@ theorem tie_run_gen : ∀ (ops : List BldOp) (g : SourceMapBuilder) (b : Bld), B
       simp only [reduceCtorEq] at h1
     | ok r =>
       obtain ⟨b1, o'⟩ := r
-      obtain ⟨g1', e1, r1, f1⟩ := sok b1 o' hm
+      obtain ⟨g1', e1, r1⟩ := sok b1 o' hm
       rw [e1] at h1
       simp only [Except.ok.injEq, Prod.mk.injEq] at h1
       obtain ⟨rfl, rfl⟩ := h1
-      obtain ⟨b', e2, r2, f2⟩ := tie_run_gen ops g1' b1 r1 g' os h2 hs
-      exact ⟨b', by simp only [List.map_cons, Bld.run, hm, e2, h3], r2, f1.trans f2⟩
+      obtain ⟨b', e2, r2⟩ := tie_run_gen ops g1' b1 r1 g' os h2 hs
+      exact ⟨b', by simp only [List.map_cons, Bld.run, hm, e2, h3], r2⟩
 
 /-! ### C13 about the generated functions -/
-
-open SmVerif.C13 in
-/-- a model state related to `g'` whose other fields are those of `toBld g` is `toBld g'` -/
-theorem eq_toBld_of_frame {g g' : SourceMapBuilder} {b' : Bld} (r : BRel g' b') (f : BFrame (toBld g) b') :
-    b' = toBld g' := by
-  have h := r.eq_toBld
-  rw [f.file, f.root, f.ignore, f.debugId] at h
-  exact h
 
 open SmVerif.C13 in
 /-- **`c13_abs_add_source` on the generated `add_source`**: from a state satisfying the builder invariant, with
@@ -893,9 +1010,9 @@ theorem gen_c13_abs_add_source (g : SourceMapBuilder) (h : Inv (toBld g)) (hs : 
     (s : List Nat) :
     ∃ g', g.add_source s = .ok (internId g.sources s, g') ∧ g'.sources = intern g.sources s ∧
       g'.names = g.names ∧ Inv (toBld g') := by
-  obtain ⟨g', e, r, f⟩ := tie_add_source g (toBld g) (brel_toBld g) hs s
+  obtain ⟨g', e, r⟩ := tie_add_source g (toBld g) (brel_toBld g) hs s
   obtain ⟨h1, h2, h3, h4⟩ := c13_abs_add_source (toBld g) h s
-  have hb := eq_toBld_of_frame r f
+  have hb := r.eq_toBld
   rw [h1] at e
   rw [hb] at h2 h3 h4
   exact ⟨g', e, h2, h3, h4⟩
@@ -906,9 +1023,9 @@ theorem gen_c13_abs_add_name (g : SourceMapBuilder) (h : Inv (toBld g)) (hn : g.
     (s : List Nat) :
     ∃ g', g.add_name s = .ok (internId g.names s, g') ∧ g'.names = intern g.names s ∧
       g'.sources = g.sources ∧ Inv (toBld g') := by
-  obtain ⟨g', e, r, f⟩ := tie_add_name g (toBld g) (brel_toBld g) hn s
+  obtain ⟨g', e, r⟩ := tie_add_name g (toBld g) (brel_toBld g) hn s
   obtain ⟨h1, h2, h3, h4⟩ := c13_abs_add_name (toBld g) h s
-  have hb := eq_toBld_of_frame r f
+  have hb := r.eq_toBld
   rw [h1] at e
   rw [hb] at h2 h3 h4
   exact ⟨g', e, h2, h3, h4⟩
@@ -918,8 +1035,8 @@ the converted state -/
 theorem runG_model (ops : List BldOp) (g : SourceMapBuilder) (outs : List BOut)
     (h : runG emptyG ops = .ok (g, outs)) (hs : SmallG g) :
     (Bld.new none).run (ops.map BldOp.toBOp) = .ok (toBld g, outs) := by
-  obtain ⟨b', hrun, r, f⟩ := tie_run_gen ops emptyG (Bld.new none) (brel_emptyG none) g outs h hs
-  have hb : b' = toBld g := eq_toBld_of_frame (g := emptyG) r f
+  obtain ⟨b', hrun, r⟩ := tie_run_gen ops emptyG (Bld.new none) brel_emptyG g outs h hs
+  have hb : b' = toBld g := r.eq_toBld
   rw [hb] at hrun
   exact hrun
 
@@ -943,8 +1060,9 @@ theorem gen_c13_builder_refines (ops : List BldOp) (g : SourceMapBuilder) (outs 
 open SmVerif.C13 in
 /-- **`c13_token_resolves` on the generated builder**: for every sequence of generated calls from `new()` and every
 `add` among them, the final state holds a `RawToken` with the given coordinates whose ids are the ones `add`
-returned, and in the finished map (`into_sourcemap` of the model, on the converted state; no root was set) that
-token's source and name read as the strings it was added with. -/
+returned, and in the finished map (`into_sourcemap` of the model, on the converted state) that token's source reads as
+the string it was added with, joined with the final `source_root` by the documented rule, and its name as the string
+it was added with. -/
 theorem gen_c13_token_resolves (ops : List BldOp) (g : SourceMapBuilder) (outs : List BOut)
     (h : runG emptyG ops = .ok (g, outs))
     (hs : g.sources.length < 4294967296) (hn : g.names.length < 4294967296)
@@ -953,7 +1071,8 @@ theorem gen_c13_token_resolves (ops : List BldOp) (g : SourceMapBuilder) (outs :
     ∃ raw ∈ g.tokens, raw.dst_line = dl ∧ raw.dst_col = dc ∧ raw.src_line = sl ∧ raw.src_col = sc ∧
       raw.is_range = rng ∧ outs[k]? = some (.tok raw.src_id raw.name_id) ∧
       toTok raw ∈ (toBld g).intoSourcemap.tokens ∧
-      (toBld g).intoSourcemap.tokSource (toTok raw) = src ∧ (toBld g).intoSourcemap.tokName (toTok raw) = name := by
+      (toBld g).intoSourcemap.tokSource (toTok raw) = src.map (join g.source_root) ∧
+      (toBld g).intoSourcemap.tokName (toTok raw) = name := by
   have hrun := runG_model ops g outs h ⟨hs, hn⟩
   have hk' : (ops.map BldOp.toBOp)[k]? = some (.add dl dc sl sc src name rng) := by
     rw [List.getElem?_map, hk]; rfl
@@ -965,8 +1084,6 @@ theorem gen_c13_token_resolves (ops : List BldOp) (g : SourceMapBuilder) (outs :
   unfold Lookup.sortToks at ht'
   have hm : t ∈ g.tokens.map toTok := (List.mergeSort_perm _ _).mem_iff.1 ht'
   obtain ⟨raw, hraw, rfl⟩ := List.mem_map.1 hm
-  have hj : src.map (join (toBld g).root) = src := by cases src <;> rfl
-  rw [hj] at h7
   exact ⟨raw, hraw, h1, h2, h3, h4, h5, h6, ht, h7, h8⟩
 
 /-! ### non-vacuity: concrete values meeting the hypotheses -/
@@ -978,7 +1095,8 @@ def exOpsG : List BldOp :=
 
 /-- the state the generated functions reach on `exOpsG` -/
 def exG : SourceMapBuilder :=
-  { name_map := [([110], 0)], names := [[110]],
+  { (default : SourceMapBuilder) with
+    name_map := [([110], 0)], names := [[110]],
     tokens := [⟨0, 3, 1, 2, 2, 0, false⟩, ⟨1, 0, 0, 0, 1, 4294967295, true⟩],
     source_map := [([97], 0), ([98], 1), ([47, 97, 98, 115], 2)], sources := [[97], [98], [47, 97, 98, 115]],
     source_contents := [none, some [120], none], sources_mapping := [4294967295, 4294967295, 4294967295] }
@@ -989,7 +1107,9 @@ example : (Bld.new none).run (exOpsG.map BldOp.toBOp) =
     .ok (toBld exG, [.id 0, .id 1, .id 0, .tok 2 0, .unit, .tok 1 4294967295, .str (some [97])]) := rfl
 example : SmallG exG := by decide
 example : SmallB (toBld exG) := by decide
-example : BRel exG { toBld exG with file := some [102], root := some [114] } := ⟨rfl, rfl, rfl, rfl, rfl, rfl, rfl⟩
+example : BRel exG (toBld exG) := rfl
+example : BRel { exG with file := some [102], source_root := some [114], ignore_list := [1], debug_id := some 3 }
+    { toBld exG with file := some [102], root := some [114], ignore := [1], debugId := some [100, 100, 100] } := rfl
 example : C13.Inv (toBld exG) := gen_c13_inv_reachable exOpsG exG _ rfl (by decide)
 -- the hypotheses of `tie_add_with_id` / `tie_add`
 example : ((some [97] : Option (List Nat)) ≠ none → exG.sources.length < 4294967296) ∧
@@ -1013,12 +1133,12 @@ example : exG.set_source 4294967295 [120] = .error .panic ∧ (toBld exG).setSou
     exG.set_source_contents 3 none = .error .panic ∧ (toBld exG).setSourceContents 3 none = .error .panic :=
   ⟨rfl, rfl, rfl, rfl, rfl, rfl, rfl, rfl⟩
 example : ∃ g', exG.set_source 1 [120] = .ok g' ∧ BRel g' { toBld exG with sources := [[97], [120], [47, 97, 98, 115]] } :=
-  ⟨_, rfl, ⟨rfl, rfl, rfl, rfl, rfl, rfl, rfl⟩⟩
+  ⟨_, rfl, rfl⟩
 
 -- the run theorems and the C13 corollaries at the example
 example : ∃ g', runG emptyG exOpsG = .ok (g', [.id 0, .id 1, .id 0, .tok 2 0, .unit, .tok 1 4294967295, .str (some [97])]) ∧
     BRel g' (toBld exG) :=
-  have ⟨g', h, r, _⟩ := tie_run exOpsG emptyG (Bld.new none) (brel_emptyG none) (toBld exG) _ rfl (by decide)
+  have ⟨g', h, r⟩ := tie_run exOpsG emptyG (Bld.new none) brel_emptyG (toBld exG) _ rfl (by decide)
   ⟨g', h, r⟩
 example : ∃ raw ∈ exG.tokens, raw.dst_line = 0 ∧ raw.dst_col = 3 ∧ raw.src_line = 1 ∧ raw.src_col = 2 ∧
     raw.is_range = false ∧
@@ -1033,6 +1153,40 @@ example : ∃ g', exG.add_source [98] = .ok (1, g') ∧ g'.sources = exG.sources
     (by decide) [98]
   ⟨g', h1, h2⟩
 
+-- the calls on `file`, `source_root`, `ignore_list`, `debug_id`: a run with all of them, on both sides
+def exOpsG2 : List BldOp :=
+  [.setFile (some [102]), .addSource [97], .add 0 0 0 0 (some [98]) none false, .addToIgnoreList 1, .addToIgnoreList 0,
+   .addToIgnoreList 1, .setSourceRoot (some [114, 47]), .setDebugId (some 2)]
+
+def exG2 : SourceMapBuilder :=
+  { (default : SourceMapBuilder) with
+    file := some [102], tokens := [⟨0, 0, 0, 0, 1, 4294967295, false⟩], source_map := [([97], 0), ([98], 1)],
+    sources := [[97], [98]], sources_mapping := [4294967295, 4294967295], source_root := some [114, 47],
+    ignore_list := [0, 1], debug_id := some 2 }
+
+example : runG emptyG exOpsG2 = .ok (exG2, [.unit, .id 0, .tok 1 4294967295, .unit, .unit, .unit, .unit, .unit]) := rfl
+example : (Bld.new none).run (exOpsG2.map BldOp.toBOp) =
+    .ok (toBld exG2, [.unit, .id 0, .tok 1 4294967295, .unit, .unit, .unit, .unit, .unit]) := rfl
+example : (toBld exG2).debugId = some [100, 100] ∧ (toBld exG2).ignore = [0, 1] ∧ (toBld exG2).root = some [114, 47] :=
+  ⟨rfl, rfl, rfl⟩
+-- the source of the token reads through the final root ("r/" + "b")
+example : ∃ raw ∈ exG2.tokens, (toBld exG2).intoSourcemap.tokSource (toTok raw) = some [114, 47, 98] :=
+  have ⟨raw, hm, _, _, _, _, _, _, _, h7, _⟩ :=
+    gen_c13_token_resolves exOpsG2 exG2 _ rfl (by decide) (by decide) 2 0 0 0 0 (some [98]) none false rfl
+  ⟨raw, hm, h7⟩
+-- the two set inserts agree on a list that is neither sorted nor duplicate-free
+example : rsSetInsert [5, 3, 5, 9] 6 = [5, 3, 5, 6, 9] ∧ SMap.insertSorted 6 [5, 3, 5, 9] = [5, 3, 5, 6, 9] := ⟨rfl, rfl⟩
+example : ∃ g', exG2.add_to_ignore_list 0 = .ok g' ∧ g'.ignore_list = [0, 1] := ⟨_, rfl, rfl⟩
+example : exG2.get_file = .ok (some [102]) ∧ exG2.get_source_root = .ok (some [114, 47]) := ⟨rfl, rfl⟩
+
+#print axioms tie_new
+#print axioms tie_set_debug_id
+#print axioms tie_set_file
+#print axioms tie_get_file
+#print axioms tie_set_source_root
+#print axioms tie_get_source_root
+#print axioms tie_add_to_ignore_list
+#print axioms rsSetInsert_eq_insertSorted
 #print axioms tie_add_source_with_id
 #print axioms tie_add_source
 #print axioms tie_add_name
@@ -1056,7 +1210,8 @@ example : ∃ g', exG.add_source [98] = .ok (1, g') ∧ g'.sources = exG.sources
 #print axioms gen_c13_inv_reachable
 #print axioms gen_c13_builder_refines
 #print axioms gen_c13_token_resolves
-#print axioms BRel.eq_toBld
+#print axioms brel_iff
+#print axioms dbgEnc_injective
 #print axioms BRel.unique
 
 end SmVerif.Tie
